@@ -91,8 +91,8 @@ def _enum(tier, shard, nshards):
 
 
 PHASES = [
-    HypPhase("dyadic", _dyadic, dict(quick=3500, thorough=50000)),
-    HypPhase("float", _float, dict(quick=1500, thorough=30000)),
+    HypPhase("dyadic", _dyadic, dict(quick=6000, thorough=50000)),
+    HypPhase("float", _float, dict(quick=2500, thorough=30000)),
     EnumPhase("grid6", _enum,
               lambda tier: "all ordered pairs of subsets of {0..6} on [0,6] x settings in "
                            "{defaults, (MRTS=3, RI, max_tau=1)}"),
